@@ -126,3 +126,96 @@ def run_restarted(make_workflow: Any, prefix: List[Dict[str, Any]], idle_timeout
 
     _with_env(loop, main)
     return obs
+
+
+# ------------------------------------------------------------------------------------------------ crash at any STORE WRITE
+
+
+def make_recording_store() -> Any:
+    """A MemoryWorkflowStore that also logs its primitive writes (handler row upserts, tick appends, event appends) in order.
+    update_handler_status() is implemented by the store base class as query + update, so it shows up as an "update"."""
+    import copy
+
+    from llama_agents.server._store.memory_workflow_store import MemoryWorkflowStore
+
+    class RecordingStore(MemoryWorkflowStore):
+        def __init__(self) -> None:
+            super().__init__()
+            self.writes: List[Any] = []
+
+        async def update(self, handler: Any) -> None:
+            self.writes.append(("update", handler.model_copy(deep=True)))
+            await super().update(handler)
+
+        async def append_tick(self, run_id: str, tick_data: Dict[str, Any]) -> None:
+            self.writes.append(("tick", run_id, copy.deepcopy(tick_data)))
+            await super().append_tick(run_id, tick_data)
+
+        async def append_event(self, run_id: str, event: Any) -> None:
+            self.writes.append(("event", run_id, event))
+            await super().append_event(run_id, event)
+
+    return RecordingStore()
+
+
+def run_first_recording(make_workflow: Any, idle_timeout: Any = 1000, horizon: int = 12) -> Dict[str, Any]:
+    """run_first over a recording store: additionally returns obs["writes"], the ordered primitive store writes."""
+    loop = MiniLoop()
+    obs: Dict[str, Any] = {"errors": []}
+
+    async def main() -> None:
+        store = make_recording_store()
+        st = InprocStack(idle_timeout, store=store)
+        wf = make_workflow()
+        st.add_workflow("w", wf)
+        await st.service.start()
+        await st.service.start_workflow(wf, "h1", None)
+        await _settle(st, horizon, obs, loop, 0)
+        obs["writes"] = list(store.writes)
+        await st.service.stop()
+
+    _with_env(loop, main)
+    return obs
+
+
+def ticks_in(writes: List[Any]) -> List[Dict[str, Any]]:
+    return [w[2] for w in writes if w[0] == "tick"]
+
+
+def run_restarted_from_writes(make_workflow: Any, writes: List[Any], idle_timeout: Any = 1000, horizon: int = 12) -> Dict[str, Any]:
+    """Server restart after a crash that happened right after the last of ``writes`` reached the store: a fresh store gets
+    exactly these writes (handler row states, ticks, events), a fresh stack is started over it."""
+    from llama_agents.server._store.memory_workflow_store import MemoryWorkflowStore
+
+    loop = MiniLoop()
+    obs: Dict[str, Any] = {"errors": []}
+    # private copies of the recorded rows, made with the tracer off (CrossHair's datetime stand-ins cannot be deep-copied by
+    # pydantic); the recorded writes themselves stay untouched for the next path
+    from vlib.h_handlers import native
+
+    writes = native(lambda: [(w[0], w[1].model_copy(deep=True)) if w[0] == "update" else w for w in writes])
+
+    async def main() -> None:
+        store = MemoryWorkflowStore()
+        for w in writes:
+            if w[0] == "update":
+                await store.update(w[1])
+            elif w[0] == "tick":
+                await store.append_tick(w[1], w[2])
+            else:
+                await store.append_event(w[1], w[2])
+        st = InprocStack(idle_timeout, store=store)
+        wf = make_workflow()
+        st.add_workflow("w", wf)
+        await st.service.start()
+        resume = st.persistence.resume_task
+        if resume is not None:
+            try:
+                await resume
+            except Exception as e:  # noqa: BLE001
+                obs["errors"].append(f"resume task: {type(e).__name__}: {e}")
+        await _settle(st, horizon, obs, loop, 0)
+        await st.service.stop()
+
+    _with_env(loop, main)
+    return obs
